@@ -1,3 +1,250 @@
-"""Thorough tier: self-validating sweep over program variants (DESIGN §6).  Variants are analysed, never run."""
-def sweep(prop, P, ctx):
-    return {}
+"""Thorough tier: a self-validating sweep over program variants derived from the current tree (DESIGN §6).
+Variants are written to a temporary directory, analysed statically, and removed; nothing of the repository is ever run.
+
+  sensitivity variants  edits that break one obligation; the property's check must report a violation on the variant
+                        (curated one-edit variants in sa/variants.py + the independently seeded changes in /verif/seeded)
+  silence variants      behaviour-preserving rewrites produced by AST transformers (rename locals, swap comparison
+                        operands, len(x) > 0 <-> x, inserted no-ops); the check must give the same verdict as on the tree
+
+The verdict of the command is the verdict on the unmodified tree; a sensitivity variant that is not reported or a silence
+variant that raises an alarm means the rule set is vacuous / brittle on today's code and stops the run with ANALYSIS-ERROR.
+"""
+from __future__ import annotations
+
+import ast
+import json
+import os
+import shutil
+import subprocess
+import sys
+import tempfile
+from concurrent.futures import ThreadPoolExecutor
+from typing import Dict, List, Optional, Tuple
+
+from .model import AnalysisError, REPO
+
+VERIF = os.path.dirname(os.path.dirname(os.path.abspath(__file__)))
+
+
+# -- silence transformers ----------------------------------------------------------------------------------
+
+class RenameLocals(ast.NodeTransformer):
+    """Consistently rename the plain local variables of every function (suffix _r)."""
+
+    def visit_FunctionDef(self, node: ast.FunctionDef):
+        self.generic_visit(node)
+        params = {a.arg for a in node.args.posonlyargs + node.args.args + node.args.kwonlyargs}
+        if node.args.vararg:
+            params.add(node.args.vararg.arg)
+        if node.args.kwarg:
+            params.add(node.args.kwarg.arg)
+        bound, banned = set(), set(params)
+        for n in ast.walk(node):
+            if isinstance(n, (ast.Global, ast.Nonlocal)):
+                banned |= set(n.names)
+            if isinstance(n, (ast.FunctionDef, ast.AsyncFunctionDef, ast.ClassDef)) and n is not node:
+                banned.add(n.name)
+                # do not rename names captured by nested scopes
+                for m in ast.walk(n):
+                    if isinstance(m, ast.Name):
+                        banned.add(m.id)
+            if isinstance(n, ast.Name) and isinstance(n.ctx, ast.Store):
+                bound.add(n.id)
+            if isinstance(n, (ast.Import, ast.ImportFrom)):
+                for a in n.names:
+                    banned.add((a.asname or a.name).split(".")[0])
+            if isinstance(n, ast.ExceptHandler) and n.name:
+                banned.add(n.name)
+        todo = {b for b in bound - banned if not b.startswith("_") and not b.endswith("_r")}
+        if not todo:
+            return node
+        for n in ast.walk(node):
+            if isinstance(n, ast.Name) and n.id in todo:
+                n.id = n.id + "_r"
+        return node
+
+
+class SwapCompare(ast.NodeTransformer):
+    """a < b  ->  b > a   (single-operator order/equality comparisons)."""
+    FLIP = {ast.Lt: ast.Gt, ast.Gt: ast.Lt, ast.LtE: ast.GtE, ast.GtE: ast.LtE, ast.Eq: ast.Eq, ast.NotEq: ast.NotEq}
+
+    def visit_Compare(self, node: ast.Compare):
+        self.generic_visit(node)
+        if len(node.ops) == 1 and type(node.ops[0]) in self.FLIP and not isinstance(node.left, ast.Constant):
+            return ast.Compare(left=node.comparators[0], ops=[self.FLIP[type(node.ops[0])]()], comparators=[node.left])
+        return node
+
+
+class LenTruth(ast.NodeTransformer):
+    """if len(x) > 0  ->  if x      and     if not x  ->  if len(x) == 0   (only in if/while/assert tests)."""
+
+    def _t(self, test):
+        if isinstance(test, ast.Compare) and len(test.ops) == 1 and isinstance(test.ops[0], ast.Gt) and isinstance(test.left, ast.Call) \
+                and isinstance(test.left.func, ast.Name) and test.left.func.id == "len" and isinstance(test.comparators[0], ast.Constant) and test.comparators[0].value == 0:
+            return test.left.args[0]
+        if isinstance(test, ast.BoolOp):
+            test.values = [self._t(v) for v in test.values]
+        return test
+
+    def visit_If(self, node):
+        self.generic_visit(node)
+        node.test = self._t(node.test)
+        return node
+
+    def visit_While(self, node):
+        self.generic_visit(node)
+        node.test = self._t(node.test)
+        return node
+
+
+class InsertNoops(ast.NodeTransformer):
+    """A `pass` at the start of every function body (after the docstring) and an unused local at the end of every loop-free module."""
+
+    def visit_FunctionDef(self, node):
+        self.generic_visit(node)
+        i = 1 if (node.body and isinstance(node.body[0], ast.Expr) and isinstance(node.body[0].value, ast.Constant) and isinstance(node.body[0].value.value, str)) else 0
+        node.body.insert(i, ast.Pass())
+        return node
+
+
+SILENCE = {"rename-locals": RenameLocals, "swap-compare": SwapCompare, "len-truth": LenTruth, "noop": InsertNoops}
+
+
+def _transform_file(path: str, tr_cls) -> bool:
+    src = open(path, encoding="utf-8").read()
+    tree = ast.parse(src)
+    new = tr_cls().visit(tree)
+    ast.fix_missing_locations(new)
+    out = ast.unparse(new)
+    if out == ast.unparse(ast.parse(src)):
+        return False
+    open(path, "w", encoding="utf-8").write(out + "\n")
+    return True
+
+
+# -- variants -----------------------------------------------------------------------------------------------
+
+def _copy_tree(repo: str) -> str:
+    d = tempfile.mkdtemp(prefix="sa-sweep-")
+    shutil.copytree(os.path.join(repo, "eudoxia"), os.path.join(d, "eudoxia"), ignore=shutil.ignore_patterns("__pycache__"))
+    if os.path.isdir(os.path.join(repo, "go")):
+        shutil.copytree(os.path.join(repo, "go"), os.path.join(d, "go"))
+    return d
+
+
+def _run_check(prop: str, d: str) -> Tuple[int, List[str], List[str]]:
+    r = subprocess.run(["/venv/bin/python", "-m", "sa.check", prop, "--repo", d, "--tier", "quick"], cwd=VERIF, capture_output=True, text=True,
+                       env={**os.environ, "SA_OUT": d, "VERIF_TIER": "quick"})
+    rules = sorted({l.split()[0] for l in r.stdout.splitlines() if l.startswith("  C") and "#" in l.split()[0]})
+    tail = [l for l in r.stdout.splitlines() if l.startswith(("ANALYSIS-ERROR", "VIOLATION"))][:3]
+    return r.returncode, rules, tail
+
+
+def _do(job) -> Dict:
+    kind, name, prop, repo, spec = job
+    d = _copy_tree(repo)
+    try:
+        if kind == "edit":
+            for (f, old, new) in spec:
+                p = os.path.join(d, f)
+                if not os.path.exists(p):
+                    return {"kind": kind, "name": name, "status": "skipped", "why": f"{f} missing"}
+                s = open(p, encoding="utf-8").read()
+                if s.count(old) != 1:
+                    return {"kind": kind, "name": name, "status": "skipped", "why": f"anchor text occurs {s.count(old)} times in {f} (tree was edited)"}
+                open(p, "w", encoding="utf-8").write(s.replace(old, new))
+        elif kind == "patch":
+            r = subprocess.run(["patch", "-p1", "-s", "--no-backup-if-mismatch", "-i", spec], cwd=d, capture_output=True, text=True)
+            if r.returncode != 0:
+                return {"kind": kind, "name": name, "status": "skipped", "why": "patch does not apply to the current tree"}
+        elif kind == "silence":
+            tr, files = spec
+            changed = False
+            for f in files:
+                p = os.path.join(d, f)
+                if os.path.exists(p) and p.endswith(".py"):
+                    try:
+                        changed = _transform_file(p, SILENCE[tr]) or changed
+                    except SyntaxError:
+                        pass
+            if not changed:
+                return {"kind": kind, "name": name, "status": "skipped", "why": "transformer changed nothing"}
+        rc, rules, tail = _run_check(prop, d)
+        return {"kind": kind, "name": name, "status": "ran", "rc": rc, "rules": rules, "tail": tail}
+    finally:
+        shutil.rmtree(d, ignore_errors=True)
+
+
+def sweep(prop: str, P, ctx) -> Dict:
+    from . import variants
+    repo = P.root
+    props = {json.loads(l)["id"]: json.loads(l) for l in open(os.path.join(VERIF, "properties.jsonl"))}
+    files = [f for f in props[prop]["anchors"]["files"] if f.endswith(".py")]
+    jobs = []
+    for name, edits in variants.SENSITIVITY.get(prop, []):
+        jobs.append(("edit", name, prop, repo, edits))
+    sd = os.path.join(VERIF, "seeded")
+    if os.path.isdir(sd):
+        for s in sorted(os.listdir(sd)):
+            mp = os.path.join(sd, s, "meta.json")
+            if os.path.exists(mp) and json.load(open(mp)).get("breaks_property") == prop:
+                jobs.append(("patch", f"seeded/{s}", prop, repo, os.path.join(sd, s, "patch.diff")))
+    for tr in SILENCE:
+        jobs.append(("silence", f"{tr}", prop, repo, (tr, files)))
+        for f in files:
+            jobs.append(("silence", f"{tr}:{f}", prop, repo, (tr, [f])))
+    # verdict on the unmodified tree (known findings make it 0 as well)
+    base_viol = sum(1 for o in ctx.obs if not o.ok)
+    with ThreadPoolExecutor(max_workers=16) as ex:
+        results = list(ex.map(_do, jobs))
+    sens = [r for r in results if r["kind"] in ("edit", "patch")]
+    sil = [r for r in results if r["kind"] == "silence"]
+    missed = [r for r in sens if r["status"] == "ran" and r["rc"] != 1]
+    from .report import load_known
+    alarmed = [r for r in sil if r["status"] == "ran" and r["rc"] != 0]
+    out = {
+        "variant_sweep": {
+            "variants_analysed": sum(1 for r in results if r["status"] == "ran"),
+            "skipped": [f"{r['name']}: {r['why']}" for r in results if r["status"] == "skipped"],
+            "sensitivity_total": sum(1 for r in sens if r["status"] == "ran"),
+            "sensitivity_fired_as_expected": sum(1 for r in sens if r["status"] == "ran" and r["rc"] == 1),
+            "sensitivity_detail": {r["name"]: r.get("rules", []) for r in sens if r["status"] == "ran"},
+            "silence_total": sum(1 for r in sil if r["status"] == "ran"),
+            "silence_silent_as_expected": sum(1 for r in sil if r["status"] == "ran" and r["rc"] == 0),
+            "rule": "sensitivity: one breaking edit per variant (curated edits + the independently seeded changes of this property), the check must exit 1 on the variant; "
+                    "silence: a behaviour-preserving AST rewrite of the property's anchor files, the check must exit 0 on the variant; variants are analysed, never executed",
+        }
+    }
+    if missed or alarmed:
+        msg = []
+        for r in missed:
+            msg.append(f"sensitivity variant `{r['name']}` was not reported (rc={r['rc']}) {r.get('tail')}")
+        for r in alarmed:
+            msg.append(f"silence variant `{r['name']}` raised an alarm (rc={r['rc']}, rules {r.get('rules')}) {r.get('tail')}")
+        raise AnalysisError("variant sweep: " + "; ".join(msg))
+    return out
+
+
+def _cli():
+    """python -m sa.mutate <prop> <transformer> [file ...]   -> run the property's check on one silence variant and show its output"""
+    prop, tr = sys.argv[1], sys.argv[2]
+    props = {json.loads(l)["id"]: json.loads(l) for l in open(os.path.join(VERIF, "properties.jsonl"))}
+    files = sys.argv[3:] or [f for f in props[prop]["anchors"]["files"] if f.endswith(".py")]
+    d = _copy_tree(REPO)
+    try:
+        for f in files:
+            p = os.path.join(d, f)
+            if os.path.exists(p):
+                print("transformed" if _transform_file(p, SILENCE[tr]) else "unchanged", f)
+        r = subprocess.run(["/venv/bin/python", "-m", "sa.check", prop, "--repo", d], cwd=VERIF, capture_output=True, text=True, env={**os.environ, "SA_OUT": d})
+        print(r.stdout[-6000:])
+        if "--keep" in os.environ.get("SA_FLAGS", ""):
+            print("kept", d)
+            return
+    finally:
+        if "--keep" not in os.environ.get("SA_FLAGS", ""):
+            shutil.rmtree(d, ignore_errors=True)
+
+
+if __name__ == "__main__":
+    _cli()
